@@ -23,14 +23,23 @@ CHECKS = {
    technique="Coq refinement proof (Mem model vs reference) + extracted-model/real-code differential on 13 backends",
    ref="DESIGN.md §4 C01, §9"),
  "C04": dict(
-   text="Table theorems re-checked by coqc on every run over the dispatch table dumped from the running code (class x public "
+   text="Theorems on the read-only wrapper model (FS/ReadOnly.v: every mutating call, and open with a writable mode, raises "
+        "ResourceReadOnly before looking at its arguments; everything else delegates): for EVERY sequence of calls through "
+        "read_only over the MemoryFS model, over WrapFS, over SubFS at any depth and over another read_only, the wrapped tree "
+        "is unchanged, refused calls report ResourceReadOnly, let-through calls are transparent, and nothing is visible to later "
+        "calls on the wrapped filesystem. " + CORR + "Real fs.wrap.read_only(MemoryFS) vs the extracted model step by step "
+        "(outcome and storage tree after every call). "
+        "Table theorems re-checked by coqc on every run over the dispatch table dumped from the running code (class x public "
         "method -> implementing class, with 'mutating' measured on a writable twin): no mutating method of the read-only "
         "wrapper resolves to WrapFS's delegating implementation; the archive readers implement their essential mutators "
-        "themselves. Reflection sweep: every public FS method x synthesised arguments x 7 read-only constructions, then "
+        "themselves. Reflection sweep: every public FS method x synthesised arguments (incl. a writable mode through **options) "
+        "x 12 read-only constructions (incl. a backend using subfs_class, archives with implied directories), then "
         "write/writelines/truncate on returned handles, mutators on returned sub-filesystems, glob().remove(); the storage "
-        "underneath is snapshotted around each call.",
-   note=TB + "Arguments are synthesised from parameter names; behaviour of method bodies is exercised, not modelled.",
-   technique="Coq proof by computation over a regenerated dispatch table + reflection-driven snapshot differential",
+        "underneath is snapshotted around each call; a read archive must keep looking exactly like a freshly opened one.",
+   note=TB + "Arguments are synthesised from parameter names; the read-mode archives and read_only over OSFS/MountFS are "
+        "exercised, not modelled.",
+   technique="Coq proof (read-only wrapper model, all call sequences) + model/real differential + table theorems over a "
+             "regenerated dispatch table + reflection-driven snapshot differential",
    ref="DESIGN.md §4 C04, §9"),
  "C05": dict(
    text="Theorems: the extracted predicate `preserved` (no unrelated file lost or changed; successful transfer delivered) holds "
@@ -92,11 +101,20 @@ CHECKS = {
    text="Theorems about the documented semantics (recursive component-wise matcher): '*', '?', classes never cross '/'; a "
         "'**'-free pattern of k components matches only k-component paths; '**' matches any number of whole levels and only "
         "whole levels; levels bound is sound (depth pruning loses no match); literal patterns match in full; the pattern cache is "
-        "bounded, keeps unique keys and never changes an answer. fs.wildcard/fs.glob/Globber from /repo are compared with the "
-        "extracted matcher on exhaustive small pattern x path spaces and on trees.",
-   note=TB + "fs/glob.py's regex translation and Python's re engine are NOT modelled: the implementation is compared with the "
-        "specification, three known deviations are recorded findings.",
-   technique="Coq proof about the specification matcher + exhaustive spec-vs-implementation differential",
+        "bounded, keeps unique keys and never changes an answer. Theorems about the code's regex translation (Glob/Translate.v, "
+        "a line-by-line model of wildcard._translate, glob._translate, glob._translate_glob producing the regex TEXT): the text is "
+        "the rendering of a regex of the modelled subset; for ALL patterns and names the wildcard regex decides exactly the "
+        "specification (both case modes); for '**'-free glob patterns with regular classes and newline-free names the glob regex "
+        "decides the component-wise specification; levels = specification; the translators are total. The deviations are proved "
+        "as _refuted examples and replayed on the running code. " + CORR + "The model's regex text must equal the real "
+        "functions' output character by character (all patterns up to 5 characters over 13 structural characters + random, "
+        "2.3 M quick); the regex atom semantics is validated against CPython re; fs.wildcard/fs.glob/Globber are compared with "
+        "the extracted specification matcher on exhaustive small pattern x path spaces and on trees.",
+   note=TB + "Python's re engine is represented by the matcher of Glob/Regex.v (validated against re on every run, trusted); "
+        "IGNORECASE/.lower() ASCII only; no positive theorem for patterns containing '**' (recorded finding). Seven deviations are "
+        "recorded findings.",
+   technique="Coq proof (specification matcher; regex translation model = specification) + exact regex-text tie + exhaustive "
+             "spec-vs-implementation differential",
    ref="DESIGN.md §4 C14, §9"),
  "C16": dict(
    text="Refinement proof: for every initial content and every sequence of opens (any mode) and calls on any of several handles, "
@@ -138,7 +156,9 @@ CHECKS.update({
    text="Theorems: the chunked copy loop of fs.tools.copy_file_data transfers every byte in order for every chunk size (None, "
         "negative, any positive) and every pattern of short reads, never writes an empty or over-long chunk, copies nothing for "
         "chunk size 0 (boundary stated); the digest is fed exactly the file; make_stream's layer table for the 24 mode spellings "
-        "(by computation). " + CORR + "Real copy_file_data vs the model with short-reading readers; 10 write paths (incl. append mode after seek/read) x 8 read paths x "
+        "(by computation). FS level, on the MemoryFS model (tied to the real MemoryFS step by step): what writebytes / open('w') / "
+        "appendbytes / copy / move stored is what readbytes returns; readbytes, open('r').read(), getsize agree; writing one "
+        "file leaves every other file's bytes alone. " + CORR + "Real copy_file_data vs the model with short-reading readers; 10 write paths (incl. append mode after seek/read) x 8 read paths x "
         "boundary lengths per chunk size (incl. 1 MiB+-1, 5 MiB thorough) x backends; text with 7 encoding/errors x 5 newline "
         "settings against CPython's io.TextIOWrapper(io.BytesIO).",
    note=TB + "Encoding/decoding/newline translation is CPython's io layer: differential only. A blocking reader returns b'' only at "
